@@ -358,9 +358,11 @@ fn plans(prop: &str, tier: Tier) -> Vec<Plan> {
         }
         "C18" => {
             for v5 in [false, true] {
-                let mut c = Cfg::base("C18", v5, 10);
-                c.keep_alive_s = 5;
-                v.push(Plan { cfg: c.clone(), depth_by_devs: if q { vec![13, 12] } else { vec![17, 16, 14] } });
+                for ka in [5u64, 7, 60] {
+                    let mut c = Cfg::base("C18", v5, 10);
+                    c.keep_alive_s = ka;
+                    v.push(Plan { cfg: c.clone(), depth_by_devs: if q { vec![13, 12] } else { vec![17, 16, 14] } });
+                }
                 if !v5 {
                     // (the MQTT 5 options do not accept a zero keep-alive)
                     let mut z = Cfg::base("C18", v5, 10);
